@@ -12,10 +12,14 @@
             reaction:   opt_name(fwd(self)) = value, opt_name(rev(self)) = REVID(value), no other solver object renamed;
             metabolite: opt_name(c) = value for c = the constraint registered under the old id (its mass-balance constraint, C01),
                         no other solver object renamed.
+      * reaction only: when optlang's name setter refuses the new id or the new reverse id (white space; `bad_name`), the function
+        raises ValueError and NOTHING has changed - id, list, index, the names of both variables (the forward variable, possibly
+        renamed already, carries its old name again).  [The original body changed id and index first and left them changed: defect
+        found with this contract, repaired in /repo.]
     Stated preconditions (not hidden): the object is listed in its model's DictList (cross-reference invariant), the DictList is well
-    formed, the solver is in step at entry (C01: the reaction's variables carry id / reverse id as names; a constraint is registered
-    under the metabolite's id), and optlang ACCEPTS the new names (its setter raises ValueError for names containing white space:
-    for a Reaction that happens AFTER id and index were changed - a partial update; see `bad_name`).
+    formed, the solver is in step at entry (C01: the reaction's variables carry id / reverse id as names - names optlang accepted;
+    a constraint is registered under the metabolite's id); for a METABOLITE also that optlang accepts the new name (its constraint is
+    renamed first, so a refused name raises before anything changed - not modelled as a case).
 (b) Reaction.remove_from_model, Reaction.delete, Metabolite.remove_from_model: exactly one call of Model.remove_reactions([self],
     remove_orphans=<flag as given>) resp. Model.remove_metabolites(self, <flag as given>) on the object's own model (ghost trace).
 """
@@ -145,6 +149,12 @@ def _dup(attr):
     return lambda E: z3.Select(Dv(E.s0, _dl(E, E.s0, attr))[0], E["value"].t)
 
 
+def _nothing(attr):
+    """raising cases: list and index as found, stated explicitly (heap fields - ids, solver names - are covered by the frame: the
+    raising cases have no modifies clause)"""
+    return lambda E: unchanged_dl(E, _dl(E, E.s0, attr))
+
+
 def _list_post(E, attr):
     """id, list and index after a successful rename"""
     x, v = E["self"].t, E["value"].t
@@ -178,10 +188,16 @@ def _model_t(attr, **more):
 
 # --- Reaction
 def _rx_in_step(E):
-    r, v = E["self"].t, E["value"].t
+    r = E["self"].t
     ida, nm = idarr(E, E.s0), names(E, E.s0)
     return z3.And(nm[fwd(r)] == ida[r], nm[rev(r)] == REVID(ida[r]),           # C01 at entry: variables named id / reverse id
-                  z3.Not(bad_name(v)), z3.Not(bad_name(REVID(v))))             # optlang accepts the new names
+                  z3.Not(bad_name(ida[r])))       # ... and the name the forward variable carries is one optlang accepted
+
+
+def _rx_names_ok(E):
+    """optlang accepts both new names"""
+    v = E["value"].t
+    return z3.And(z3.Not(bad_name(v)), z3.Not(bad_name(REVID(v))))
 
 
 def _rx_post(E):
@@ -195,8 +211,12 @@ def _rx_post(E):
 
 REG.add(Contract(MR, "Reaction._set_id_with_model", "C02",
                  [("self", TRef("Reaction")), ("value", TStr()), ("model", _model_t("reactions"))], [
-                     Case("new_id", requires=lambda E: z3.Not(_dup("reactions")(E)), ensures=_rx_post),
-                     Case("id_in_use", requires=_dup("reactions"), raises="ValueError"),
+                     Case("new_id", requires=lambda E: z3.And(z3.Not(_dup("reactions")(E)), _rx_names_ok(E)), ensures=_rx_post),
+                     Case("id_in_use", requires=_dup("reactions"), raises="ValueError", ensures=_nothing("reactions")),
+                     # optlang refuses the new id or the new reverse id as a variable name: ValueError and NOTHING has changed (no
+                     # modifies_on_raise: id, list, index and every solver name - incl. a forward variable already renamed - as found)
+                     Case("name_rejected", requires=lambda E: z3.And(z3.Not(_dup("reactions")(E)), z3.Not(_rx_names_ok(E))),
+                          raises="ValueError", ensures=_nothing("reactions")),
                  ], pre=_rename_pre("reactions", _rx_in_step), modifies=_rename_mod("reactions"),
                  key="Reaction._set_id_with_model", props=["C02", "C01"],
                  note="`model` is a ghost parameter: the materialised model self._model points to"))
@@ -221,7 +241,7 @@ def _met_post(E):
 REG.add(Contract(MMET, "Metabolite._set_id_with_model", "C02",
                  [("self", TRef("Metabolite")), ("value", TStr()), ("model", _model_t("metabolites", constraints=TRef("Container")))], [
                      Case("new_id", requires=lambda E: z3.Not(_dup("metabolites")(E)), ensures=_met_post),
-                     Case("id_in_use", requires=_dup("metabolites"), raises="ValueError"),
+                     Case("id_in_use", requires=_dup("metabolites"), raises="ValueError", ensures=_nothing("metabolites")),
                  ], pre=_rename_pre("metabolites", _met_in_step), modifies=_rename_mod("metabolites"),
                  key="Metabolite._set_id_with_model", props=["C02", "C01"],
                  note="`model` is a ghost parameter: the materialised model self._model points to"))
